@@ -9,6 +9,7 @@ import (
 	"os"
 	"os/exec"
 	"runtime"
+	"strings"
 	"sync"
 	"syscall"
 	"time"
@@ -46,8 +47,8 @@ type tailBuffer struct {
 func (t *tailBuffer) Write(p []byte) (int, error) {
 	t.mu.Lock()
 	t.buf = append(t.buf, p...)
-	if len(t.buf) > 16384 {
-		t.buf = t.buf[len(t.buf)-16384:]
+	if len(t.buf) > 131072 {
+		t.buf = t.buf[len(t.buf)-131072:]
 	}
 	t.mu.Unlock()
 	return len(p), nil
@@ -281,4 +282,55 @@ func mustJSON(v any) json.RawMessage {
 		panic(err)
 	}
 	return b
+}
+
+// crashViolation decides what a crashed or failed worker job means.  The job is run again, twice, in fresh workers:
+// when it fails every time it is reported as a violation - a fault (e.g. reading unmapped memory) or panic inside
+// moss on this input is one, and a defect of the harness would be mine to repair; either way the check must not
+// stay silent.  A job that succeeds when repeated was a transient failure and is counted as an infrastructure error.
+func crashViolation(pool *Pool, prop string, job Job, r JobResult) *Violation {
+	if r.Timeout || r.Skipped {
+		return nil
+	}
+	if w0 := crashSite(r.Stderr); crashReported[prop+"|"+w0] {
+		return nil // the same crash site has been confirmed and reported for an earlier job of this run
+	}
+	last := r
+	for rep := 0; rep < 2; rep++ {
+		rr := pool.RunOne(job)
+		if !rr.Crashed && rr.Err == "" {
+			return nil
+		}
+		if rr.Timeout {
+			return nil
+		}
+		last = rr
+	}
+	where := crashSite(last.Stderr)
+	crashReported[prop+"|"+where] = true
+	return &Violation{Prop: prop, Sig: "crash|" + where + "|any",
+		Msg: fmt.Sprintf("the worker process running job %s died (3 of 3 runs): %s %s", string(job.Data), last.Err, tail(last.Stderr, 1500))}
+}
+
+var crashReported = map[string]bool{}
+
+// crashSite names the first moss function in a crash report (or "worker").
+func crashSite(stderr string) string {
+	// start at the last crash marker: the trace of the goroutine that died comes first after it
+	for _, marker := range []string{"fatal error:", "panic:", "unexpected fault address"} {
+		if i := strings.LastIndex(stderr, marker); i >= 0 {
+			stderr = stderr[i:]
+			break
+		}
+	}
+	for _, line := range strings.Split(stderr, "\n") {
+		if i := strings.Index(line, "github.com/couchbase/moss."); i >= 0 && !strings.Contains(line, "Verif") {
+			where := strings.TrimSpace(line[i+len("github.com/couchbase/moss."):])
+			if j := strings.LastIndex(where, "("); j > 0 {
+				where = where[:j] // drop the argument list
+			}
+			return where
+		}
+	}
+	return "worker"
 }
